@@ -108,9 +108,7 @@ class IncludeExcludeTree():
                 if key in exclude:
                     continue
                 elif key in self.subtrees:
-                    if isinstance(value, dict):
-                        # otherwise it won't be selected anyway
-                        result[key] = self.subtrees[key].get(value)
+                    self._get_from_subtree(key, value, result)
                 else:
                     result[key] = value
         else:
@@ -120,13 +118,26 @@ class IncludeExcludeTree():
                 if key in include:
                     result[key] = value
                 elif key in self.subtrees:
-                    if isinstance(value, dict):
-                        # otherwise it won't be selected
-                        result[key] = self.subtrees[key].get(value)
+                    self._get_from_subtree(key, value, result)
                 else:
                     continue
 
         return result
+
+    def _get_from_subtree(self, key, value, result):
+        """Update *result* with the part of *value* (the item
+        of the context with the given *key*) selected by the subtree.
+        """
+        subtree = self.subtrees[key]
+        if isinstance(value, dict):
+            subresult = subtree.get(value)
+            # An empty dictionary is included only if the key itself
+            # is included (not because of its excluded contents).
+            if subresult or subtree.include:
+                result[key] = subresult
+        elif subtree.include:
+            # the value has no nested keys, which could be excluded.
+            result[key] = value
 
     def __eq__(self, other):
         if not isinstance(other, IncludeExcludeTree):
